@@ -396,6 +396,19 @@ func (c *CEnv) ident(name string) CVal {
 		if v, ok := c.frame.resolveLocal(name, c.at, c.st); ok {
 			return v
 		}
+		// capvar_<name>: the contents of the cell of a captured variable of a function literal under contract, in the
+		// state the expression is evaluated in (old(capvar_x) is the contents on entry). For variables the literal or
+		// its function assigns more than once; once-assigned ones are the constants cap_<name>.
+	}
+	// capvar_<name>: see above (postconditions are evaluated without a frame of their own: the unit's frame is `sel`)
+	if fr := c.capFrame(); fr != nil && strings.HasPrefix(name, "capvar_") {
+		for _, fv := range fr.fn.FreeVars {
+			if fv.Name() == name[len("capvar_"):] {
+				if pt, ok := fv.Type().(*types.Pointer); ok {
+					return CVal{S: e.load(c.st, fr.placeOf(fv)), T: pt.Elem()}
+				}
+			}
+		}
 	}
 	if c.pkg != nil {
 		if o := c.pkg.Scope().Lookup(name); o != nil {
@@ -415,6 +428,16 @@ func (c *CEnv) ident(name string) CVal {
 		}
 	}
 	return c.fail("unknown identifier %q in contract", name)
+}
+
+func (c *CEnv) capFrame() *Frame {
+	if c.frame != nil && c.frame.fn != nil {
+		return c.frame
+	}
+	if c.sel != nil && c.sel.fn != nil {
+		return c.sel
+	}
+	return nil
 }
 
 func (c *CEnv) object(o types.Object) CVal {
